@@ -67,7 +67,7 @@ SYMS = ['s0', 's1', 's2', 's3']
 
 
 def plan(tier, seed):
-    n = 1200 if tier == 'quick' else 24000
+    n = 1200 if tier == 'quick' else 12000
     return [{'n': i} for i in range(n)]
 
 
@@ -385,8 +385,10 @@ class Gen:
         c['mult'] = ctx.get('mult', 1) * max(1, mult)
         # {GLOBALSYMBOLS} only where every enclosing level is global as well (manual silent otherwise);
         # labels in a body whose passes share one symbol space only if it is passed once
-        c['labels_ok'] = private or (ctx.get('all_global', True) and c['mult'] == 1)
-        c['all_global'] = ctx.get('all_global', True) and not private
+        c['dead'] = ctx.get('dead', False) or mult == 0
+        c['labels_ok'] = private or (ctx.get('all_global', True) and c['mult'] == 1 and not c['dead'])
+        # (inside a repetition that is never passed nothing may define global labels)
+        c['all_global'] = ctx.get('all_global', True) and not private and not c['dead']
         c['in_body'] = True
         return c
 
